@@ -10,7 +10,7 @@ import tsparse
 import vlib
 from vlib import ToolError, log
 
-HELPERS = ["Inner", "UnitE", "DataE", "TagE", "Gen<i32>", "Pair<String>", "Deep", "Tree"]
+HELPERS = ["Inner", "UnitE", "DataE", "TagE", "Gen<i32>", "Pair<String>", "Deep", "Tree", "OneU"]
 
 
 def program_slices(tier):
@@ -32,7 +32,7 @@ def program_slices(tier):
                         [[], ["tag"], ["rename_all"], ["optional_fields"], ["rename"], ["tag", "rename_all"], ["rename_all_kebab"]],
                         ["named"], [], [],
                         ["i32", "u64", "string", "unit", "opt_i32", "opt_inner", "vec_inner", "tup", "map", "map_e", "box_inner", "inner", "unite",
-                         "datae", "tage", "gen_inner", "pair", "optopt", "f64", "char", "deep", "vec_deep", "tree", "opt_tree"],
+                         "datae", "tage", "gen_inner", "pair", "optopt", "f64", "char", "deep", "vec_deep", "tree", "opt_tree", "oneu"],
                         [[], ["skip"], ["flatten"], ["inline"], ["optional"], ["optional_nullable"], ["optional_ssi"], ["rename"], ["default"]],
                         tys2=("string", "opt_i32") if not q else ("string",))))
     sl.append(("S2", sc(["struct"], [], [[], ["rename"]], ["tuple", "newtype", "unit", "named0", "tuple0"], [], [],
